@@ -36,6 +36,21 @@ def _getattr_name(t):
     return None
 
 
+def _resolved_elsewhere(t):
+    """For getattr(<module object>, X, ...): a description of <module object> when it is not sys.modules[...] /
+    importlib.import_module(...)."""
+    if not (isinstance(t, App) and t.fn == 'getattr' and t.args):
+        return None
+    m = strip_versions(t.args[0])
+    if isinstance(m, Sub) and strip_versions(m.base) in (Sym('sys.modules'), Attr(Sym('sys'), 'modules')):
+        return None
+    if isinstance(m, App) and ('import_module' in m.fn or any('import_module' in repr(a) for a in m.args[:1])):
+        return None
+    if isinstance(m, App) and ('__import__' in m.fn or any(repr(a).endswith('__import__') for a in m.args[:1])):
+        return '__import__(...)'
+    return None
+
+
 def _module_entries(t):
     """For getattr(sys.modules[M], X, ...): the description entries E whose 'module' key M is read from."""
     if not (isinstance(t, App) and t.fn == 'getattr' and t.args):
@@ -108,6 +123,10 @@ def run(cx: Cx):
                     R = x.base.base
                     arg = d.get('args', (None,))[0] if d.get('args') else None
                     if K in HOOKS:
+                        bad_res = _resolved_elsewhere(d['func_term'])
+                        if bad_res:
+                            viol('R-FWD', 'names-resolved-in-sys-modules', f"the {K} hook is resolved through {bad_res}: for a dotted module "
+                                 f"name that is the top-level package, not the module that defines the function", e.line)
                         if R != roots.get(HOOKS[K]):
                             viol('R-ORDER', f"hook-{K}-read-from-its-own-entry", f"the {K} hook is looked up in {R!r}", e.line)
                         me = _module_entries(d['func_term'])
@@ -127,6 +146,19 @@ def run(cx: Cx):
                     kind = 'model' if R == Sub(D, Const('model')) else ('system' if R == roots.get('system') else ('agent' if R == roots.get('agent') else None))
                     if kind is None:
                         continue
+                    bad_res = _resolved_elsewhere(d.get('recv'))
+                    if bad_res:
+                        viol('R-FWD', 'names-resolved-in-sys-modules', f"the {kind} class is resolved through {bad_res}: for a dotted module "
+                             f"name that is the top-level package, not the module that defines the class", e.line)
+                    if kind == 'model':
+                        # the lookup of the model class itself belongs to the model step: a hook that runs before the model may
+                        # import or rebind what the name resolves to
+                        look = [k for k, x in enumerate(evs[:i]) if x.kind == 'call' and x.data.get('callee_name') == 'builtins.getattr'
+                                and x.data.get('args') and len(x.data['args']) >= 2 and strip_versions(x.data['args'][1]) == Sub(R, Const('name'))]
+                        hooks_before = [k for r_, k, _ in seq if r_ == 'hook:pre_model_decode']
+                        if look and hooks_before and look[0] < hooks_before[0]:
+                            viol('R-ORDER', 'model-class-resolved-after-the-pre-model-hook', "the model class is looked up before the "
+                                 "pre_model_decode hook runs: the hook can no longer provide (import, select) the class that is decoded", evs[look[0]].line)
                     me = _module_entries(d.get('recv'))
                     if me and me != {R}:
                         viol('R-ORDER', f"class-of-{kind}-resolved-in-its-own-module", f"the {kind} class is looked up in the module named by "
